@@ -263,6 +263,9 @@ pub fn b1_header(depth: usize, form: u8) -> Vec<u8> {
         let through_unprotected = match form {
             3 => level % 2 == 0,
             4 => level % 3 != 0,
+            // long runs through unprotected headers (bounded by the CBOR parser per byte string)
+            // separated by single protected hops (each of which gives the parser a fresh budget)
+            5 => level % 121 != 120,
             _ => false,
         };
         let mut sig = vec![0x83];
@@ -276,7 +279,7 @@ pub fn b1_header(depth: usize, form: u8) -> Vec<u8> {
         }
         let mut next = vec![0xa1, 0x07];
         match form {
-            0 | 3 | 4 => next.extend_from_slice(&sig),
+            0 | 3 | 4 | 5 => next.extend_from_slice(&sig),
             1 => {
                 next.push(0x81);
                 next.extend_from_slice(&sig);
@@ -542,6 +545,30 @@ pub fn b7_flat(family: u8, n: usize) -> (Ty, Vec<u8>, &'static str) {
             v.extend_from_slice(&[0xa0, 0xf6]);
             (Ty::Encrypt0, v, "protected header with an n-element array extra")
         }
+        15 | 16 | 17 | 18 | 19 | 20 => {
+            // maps whose n extra labels arrive in descending (15-17) or pseudo-random (18-20) order
+            let (ty, first): (Ty, Vec<u8>) = match family % 3 {
+                0 => (Ty::Header, vec![]),
+                1 => (Ty::Key, vec![0x01, 0x02]),
+                _ => (Ty::Claims, vec![]),
+            };
+            head(&mut v, 5, n as u64 + if first.is_empty() { 0 } else { 1 });
+            v.extend_from_slice(&first);
+            for i in 0..n {
+                let k = if family < 18 { n - 1 - i } else { (i * 7919 + 13) % n };
+                // private-use / key-type-specific negative labels, all distinct
+                rcbor::encode_into(&Item::int(-70000 - k as i64), &mut v, &mut rcbor::Style::canonical());
+                v.push(0x00);
+            }
+            (ty, v, match family {
+                15 => "header map with n extras in descending label order",
+                16 => "key map with n extras in descending label order",
+                17 => "claims set with n claims in descending key order",
+                18 => "header map with n extras in scattered label order",
+                19 => "key map with n extras in scattered label order",
+                _ => "claims set with n claims in scattered key order",
+            })
+        }
         _ => {
             // kid of n bytes in unprotected header of a recipient
             v.extend_from_slice(&[0x83, 0x40, 0xa1, 0x04]);
@@ -552,7 +579,7 @@ pub fn b7_flat(family: u8, n: usize) -> (Ty, Vec<u8>, &'static str) {
         }
     }
 }
-pub const N_FLAT: u8 = 15;
+pub const N_FLAT: u8 = 21;
 
 // ---------------------------------------------------------------------------------------------
 // E2: one-shot child.  Reads lines "<type index> <tagged 0|1> <hex>" from stdin, decodes each on a
